@@ -5,22 +5,23 @@ import base64, struct
 
 ID = 'C03'
 GENERATORS = ['gen_font',            # Model/Font.v (reused for glyphs_from_u8_data) needs Gen/FontConsts.v
+              'gen_sixel',           # Gen/SixelGen.v: MAX_SIXEL_DIMENSION of src/sixel_mod.rs and the three places that apply it (Props/C03.v sixel_limit_tied)
               'gen_macro',           # Gen/MacroLimit.v: MAX_MACRO_NESTING (Model/AnsiTok.v astep, Model/Cost.v macro_chars)
               'gen_codepage', 'gen_formats']   # extension (e): the loader models of C05 / C02 (Model/C05*.v, Model/C02Loaders.v) need Gen/Codepage.v, Gen/Formats.v
 COQ_TARGETS = ['Props/C03.vo', 'Run/RunC03.vo', 'Run/RunC03L.vo']
 PROPS_MODULE = 'Props.C03'
 THEOREMS = ['cost_bound', 'cost_bound_sp', 'prim_ticks_bound', 'ticks_bound_scroll', 'tick_version_same_state', 'fixed_arms_only', 'sp_arms_only',
-            'rep_linear', 'rep_refuted', 'hexmacro_refuted', 'macro_recursion_before_fix_refuted', 'sixel_repeat_linear', 'sixel_raster_refuted',
+            'rep_clamped', 'rep_linear_before_fix', 'rep_before_fix_refuted', 'hexmacro_before_fix_refuted', 'macro_recursion_before_fix_refuted', 'sixel_repeat_linear', 'sixel_raster_before_fix_refuted', 'sixel_raster_refused',
             'avatar_repeat_bound', 'glyph_iters_bound', 'window_ticks_bound',
             # extension (a): allocation
             'alloc_version_same_state', 'alloc_counts_growth', 'alloc_dominates', 'alloc_bound', 'alloc_bound_state', 'alloc_bound_sp', 'alloc_bound_dollar',
             # extension (b): weighted iteration totals, rectangle clip
             'ticks_bound', 'ticks_bound_sp', 'rect_clip', 'ticks_bound_dollar', 'ticks_bound_rqcra', 'dollar_arms_only', 'rqcra_arm_only',
             # extension (c): hex-macro repeat groups, macro replay
-            'hexmacro_bound', 'hexmacro_bound_cond', 'hexmacro_linear', 'macro_replay_bound', 'macro_replay_total', 'macro_recursion_bounded', 'macro_limit_conservative',
+            'hexmacro_bound', 'hexmacro_refused', 'hexmacro_bound_before_fix', 'hexmacro_bound_cond_before_fix', 'hexmacro_linear_before_fix', 'macro_replay_bound', 'macro_replay_total', 'macro_recursion_bounded', 'macro_limit_conservative',
             'macro_invokes_half', 'macro_table_ok',
             # extension (d): sixel decoder
-            'sixel_ticks_bound', 'sixel_alloc_bound', 'sixel_image_bound',
+            'sixel_ticks_bound', 'sixel_alloc_bound', 'sixel_image_bound', 'sixel_ticks_bound_abs', 'sixel_alloc_bound_abs', 'sixel_image_bound_abs', 'sixel_limit_tied',
             # extension (e): binary loaders
             'load_ticks_bound_pair', 'load_ticks_bound_xbc', 'load_ticks_bound_tnd', 'load_ticks_bound_idf']
 SWEEP_LEMMAS = []
@@ -34,8 +35,8 @@ TRUSTED = ['Coq 8.16.1 kernel + vm_compute (model evaluation in stage C); no axi
            'every bound theorem carries the equality with the original function, the hand-written parts are tied by the stage-C comparisons listed in RULE; '
            'the models of C05 / C02 (loaders), C14 (Sixel.v), C09/C01 (TermCore.v, AnsiTok.v) are imported unchanged']
 UNMODELLED = ['real time and memory (the theorems count iterations and allocated rows/cells/bytes; Vec::insert/remove count as one step)',
-              'REP: outside alloc_bound / ticks_bound (final byte b is the known class of both; its threaded counter rep_a is computed, dominates the growth '
-              '(alloc_dominates) and is compared one-sidedly by stage C; its per-iteration weight is an upper estimate)',
+              'REP (repaired: at most terminal width x height copies): inside cost_bound and ticks_bound now; still outside alloc_bound (its threaded counter rep_a is computed, dominates '
+              'the growth (alloc_dominates), runs over at most width x height print_char calls (rep_clamped) and is compared one-sidedly by stage C; the amortised bound over print_char is not proved)',
               'macro replay: macro_replay_bound / macro_replay_total / macro_recursion_bounded are about macro_chars (characters replayed, nesting through the `ESC [ n * z` occurrences '
               'of the bodies, at most MAX_MACRO_NESTING levels as in the code, the chain abandoned at the first invocation beyond the limit); a macro that DEFINES macros while it is replayed '
               'is not covered by that abstraction (the character-level model AnsiTok.astep covers it: C01); the bound for NON-recursive nests is geometric in the depth (each level may replay '
@@ -130,7 +131,8 @@ def tuples(rng, w, h, count, first_small_only=False):
         out = [t for t in out if not t or t[0] < 2147483647]
     return out[:count] if not first_small_only else out
 
-KNOWN_SLOW = ('REP',)
+KNOWN_SLOW = ()             # control functions whose 2^31-1 variant burns the time limit (REP until its repair: now an ordinary table entry)
+MODEL_SLOW = ('REP',)       # stage C only: the MODEL walks lists cell by cell, keep the count small there
 
 # ---- prepared states, probes (strengthening after the missed seeds: notes/C03.md) ---------------------------------------------------
 MAXW, MAXH = 132, 60          # the largest text area the engine accepts (CSI 8;h;w t clamps to it)
@@ -205,7 +207,7 @@ def state_tuples(rng, w, h, k, name):
         r = rng.random()
         if r < 0.3: out.append((rng.randint(0, 9),) + tuple(rng.choice([65536, 1000000, B]) for _ in range(rng.choice([1, 1, 2]))))
         else: out.append(tuple(rng.choice(vals) for _ in range(rng.choice([1, 1, 2, 3, 4]))))
-    if name in KNOWN_SLOW:      # REP beyond the screen is a known class in every state (the fresh-screen table keeps reporting it)
+    if name in KNOWN_SLOW:
         out = [((min(t[0], 3000),) + t[1:]) if t else t for t in out]
     return out
 
@@ -257,16 +259,14 @@ def special_cases(ctx):
     seq('macro-text', E + b'P2147483647;0;0!zX' + ST + E + b'[2147483647*z')
     seq('macro-text', E + b'P1;0;0!z' + E + b'[1*z' + ST + E + b'[1*z')          # invoked inside the definition, not recorded
     # hex macros, repeat groups of every magnitude
-    for n in [0, 1, 2000, 65536, 1000000, 2147483647]:
-        big = n >= 1000000
-        huge = n >= 2147483647
-        seq('hexmacro-repeat', E + b'P1;0;1!z!%d;41;' % n + ST, is_slow=huge)
-        if not huge or not quick:
-            seq('hexmacro-repeat', E + b'P1;0;1!z!%d;4142' % n + ST, is_slow=huge)                 # unterminated group
-        if not big:
-            seq('hexmacro-repeat', E + b'P1;0;1!z!%d;41;' % n + ST + E + b'[1*z')
-        seq('hexmacro-repeat', E + b'P1;0;1!z!%d;;' % n + ST + E + b'[1*z')                       # empty group: no work per iteration
-    seq('hexmacro-repeat', E + b'P1;0;1!z!1000000;41;' + ST + E + b'[1*z')
+    # (regression inputs of the former known class hexmacro-repeat: ordinary cases since MAX_MACRO_SIZE = 65536)
+    for n in [0, 1, 2000, 32768, 32769, 65535, 65536, 65537, 1000000, 2147483647]:
+        seq('hexmacro-repeat', E + b'P1;0;1!z!%d;41;' % n + ST)
+        seq('hexmacro-repeat', E + b'P1;0;1!z!%d;4142' % n + ST)                                   # unterminated group
+        seq('hexmacro-repeat', E + b'P1;0;1!z!%d;41;' % n + ST + E + b'[1*z')
+        seq('hexmacro-repeat', E + b'P1;0;1!z!%d;;' % n + ST + E + b'[1*z')                       # empty group: nothing appended, whatever the count
+        seq('hexmacro-repeat', E + b'P1;0;1!z!%d;41;!%d;42;!%d;43' % (n, n, n) + ST + E + b'[1*z')      # the groups add up
+        seq('hexmacro-repeat', E + b'P1;0;1!z41!%d;42;43' % n + ST + E + b'[1*z')
     seq('hexmacro', E + b'P1;0;1!z41424344' + ST + E + b'[1*z')
     seq('hexmacro', E + b'P1;0;1!z!3;!3;41;;' + ST + E + b'[1*z')
     seq('hexmacro', E + b'P1;0;1!zZZ' + ST)
@@ -277,26 +277,28 @@ def special_cases(ctx):
     seq('macro-recursion', E + b'P1;0;1!z411B5B312A7A' + ST + E + b'[1*z')
     seq('macro-recursion', E + b'P1;0;1!z' + b'1B5B312A7A' * 4 + ST + E + b'[1*z')
     seq('macro-recursion', E + b'P1;0;1!z!9;411B5B312A7A;' + ST + E + b'[1*z')
-    seq('macro-recursion', E + b'P1;0;1!z!65536;1B5B312A7A;' + ST + E + b'[1*z', is_slow=True)      # (the definition itself is the known class hexmacro-repeat)
+    seq('macro-recursion', E + b'P1;0;1!z!65536;1B5B312A7A;' + ST + E + b'[1*z')      # (5 x 65536 characters: refused by MAX_MACRO_SIZE)
+    seq('macro-recursion', E + b'P1;0;1!z!13107;1B5B312A7A;' + ST + E + b'[1*z')      # (65535 characters: the largest accepted self-invoking body)
     seq('macro-recursion', E + b'P1;0;1!z1B501B5B312A7A' + ST + E + b'[1*z' + ST)                    # recursion through the invocation inside a DCS string
     # nesting without recursion: macro 2 replays macro 1 three times
     seq('macro-nesting', E + b'P1;0;1!z41' + ST + E + b'P2;0;1!z' + b'1B5B312A7A' * 2 + ST + E + b'[2*z')
     seq('macro-nesting', E + b'P1;0;1!z!9;41;' + ST + E + b'P2;0;1!z!9;1B5B312A7A;' + ST + E + b'[2*z')
     # sixel through the parser (decode thread joined by the harness)
-    for ww, hh in [(1, 1), (80, 25), (2000, 2000), (65536, 1), (1, 65536), (99999, 99999), (1000000, 1000000), (2147483647, 2147483647), (0, 2147483647), (2147483647, 0)]:
-        known = ww * hh * 4 > (256 << 20) or hh > 20000000
-        if known and quick and (ww, hh) != (99999, 99999): continue
-        seq('sixel-raster', E + b'Pq"1;1;%d;%d~' % (ww, hh) + ST, is_slow=known)
-    for hh in [1, 65536, 1000000, 2147483647]:
-        known = hh > 20000000
-        if known and quick: continue
-        seq('sixel-raster', E + b'Pq"1;1;%d~' % hh + ST, is_slow=known)
-    for n in [0, 1, 2000, 65536, 1000000, 2147483647]:
-        known = n >= 1000000
-        if n >= 2147483647 and quick: continue
-        seq('sixel-repeat', E + b'Pq!%d~' % n + ST, is_slow=(n >= 2147483647))
+    # (regression inputs of the former known classes sixel-raster / sixel-repeat: ordinary cases since MAX_SIXEL_DIMENSION = 4096)
+    for ww, hh in [(1, 1), (80, 25), (2000, 2000), (4096, 4096), (4097, 1), (1, 4097), (4097, 4097), (65536, 1), (1, 65536), (99999, 99999), (1000000, 1000000),
+                   (2147483647, 2147483647), (0, 2147483647), (2147483647, 0)]:
+        seq('sixel-raster', E + b'Pq"1;1;%d;%d~' % (ww, hh) + ST)
+        seq('sixel-raster', E + b'Pq"1;1;%d;%d!%d~' % (ww, hh, ww) + ST)
+    for hh in [1, 4096, 4097, 65536, 1000000, 2147483647]:
+        seq('sixel-raster', E + b'Pq"1;1;%d~' % hh + ST)
+    for n in [0, 1, 2000, 4095, 4096, 4097, 65536, 1000000, 10000000, 2147483647]:
+        seq('sixel-repeat', E + b'Pq!%d~' % n + ST)
+        seq('sixel-repeat', E + b'Pq!%d~-!%d~-!%d~' % (n, n, n) + ST)
         seq('sixel-repeat', E + b'Pq!%d-' % n + ST)
+        seq('sixel-repeat', E + b'Pq!%d-~' % n + ST)
         seq('sixel-repeat', E + b'Pq!%d$' % n + ST)
+        seq('sixel-repeat', E + b'Pq!%d\x80' % n + ST)
+        seq('sixel-repeat', E + b'Pq!%d?!%d?!%d?~' % (n, n, n) + ST)
     seq('sixel', E + b'Pq#2147483647;2;2147483647;2147483647;2147483647~' + ST)
     seq('sixel', E + b'Pq' + b'-' * 40 + b'~' + ST)
     # Avatar repeat: every count byte
@@ -305,8 +307,12 @@ def special_cases(ctx):
         seq('avatar-repeat', b'\x19\n' + bytes([n]), emu=2)
     seq('avatar-repeat', b'\x19\x19\xff', emu=2)
     seq('avatar-repeat', b'\x19\x1b\xff', emu=2)
-    seq('REP', E + b'[\x199\x09b', emu=2, is_slow=True)                 # 9 digits into the pending CSI, then REP 999999999 (known class REP)
-    seq('REP', E + b'[\x199\x0ab', emu=2, pre=b'A', is_slow=True)        # 10 digits: REP 2147483599 (known class REP)
+    seq('REP', E + b'[\x199\x09b', emu=2)                 # 9 digits into the pending CSI, then REP 999999999 (regression: the former known class REP)
+    seq('REP', E + b'[\x199\x0ab', emu=2, pre=b'A')        # 10 digits: REP 2147483599
+    for n in (1000, 2001, 1000000, 10000000, 2147483647):   # regression inputs of C03-oom/timeout/alloc:REP
+        seq('REP', b'A' + E + b'[%db' % n)
+        seq('REP', b'A' + E + b'[%db' % n, w=132, h=60)
+        seq('REP', E + b'[2;5r' + E + b'[5;1HA' + E + b'[%db' % n)          # through margins: one scroll per wrapped row
     # custom fonts through DCS (CTerm:Font:<slot>:<base64>), payload < 64 bytes in total
     fonts = [b'\x36\x04\x00\x00', b'\x36\x04\x00\x00' + b'\x00' * 8, b'\x36\x04\x02\xff' + b'\x00' * 8, b'\x36\x04\x03\x01\x00',
              b'\x72\xb5\x4a\x86' + struct.pack('<7I', 0, 32, 0, 0xffffffff, 0xffffffff, 0xffffffff, 0xffffffff)[:20],
@@ -348,7 +354,8 @@ def special_cases(ctx):
         load(ext, b'')
         load(ext, b'A' * 63)
         if not quick or ext in ('ans', 'avt'):
-            load(ext, E + b'[2147483647b', name='REP', is_slow=True)          # the text loaders run the parsers: known class REP
+            load(ext, E + b'[2147483647b', name='REP')          # the text loaders run the parsers (regression: the former known class REP)
+            load(ext, b'A' + E + b'[2147483647b', name='REP')
         load(ext, b'A' + E + b'[1000000b', name='REP')
         load(ext, b'\x19A\xff' * 20)
         load(ext, E + b'[2147483647C' + b'A')
@@ -609,7 +616,7 @@ def state_corr_cases(ctx):
     nstates = len(prepared_states(80, 25))
     def add(inter, final, t, with_probe, si=None):
         name = fn_name(inter, final)
-        if name in KNOWN_SLOW and t: t = (min(t[0], 300),) + t[1:]
+        if name in MODEL_SLOW and t: t = (min(t[0], 300),) + t[1:] if rng.random() < 0.5 else t     # (the small screens of SCROLLERS clamp the rest: REP <= w*h <= 240)
         for _ in range(20):
             pn, pb = rng.choice(PROBES) if with_probe else ('-', b'')
             # the model's scrolls walk lists cell by cell: the scroll functions get the small screens
@@ -644,6 +651,9 @@ def sixel_payloads(ctx):
     rng = ctx.rng
     out = [b'', b'~', b'~~-~', b'!5~', b'!0~', b'!', b'!~', b'"1;1;10;20~', b'"1;1;7~', b'"1;1~', b'"1~', b'"1;1;2;2;2~', b'#1;2;100;0;0~', b'#1;2;100;0~',
            b'#5~', b'#300~', b'#1;1;120;50;50~', b'!400-~', b'!3$~', b'~$~-?', b'"1;1;0;0~~', b'"1;1;3;1~-~-~', b'!12"1;1;5;5~', b'!3#1~', b'>', b'~\x80~', b'#1;3;1;1;1~']
+    # around MAX_SIXEL_DIMENSION = 4096 (cheap for the list model: refused ones, or nothing / little drawn)
+    out += [b'!4097~', b'!4096?', b'!4096?~', b'!4095?~', b'!4096$~', b'!4097$', b'"1;1;4097;1~', b'"1;1;1;4097~', b'"1;1;2;4096~', b'"1;1;4096~', b'"1;1;4097~', b'!4096-~', b'!683-~',
+            b'!682-~', b'!681-~', b'"1;1;1;4096!682-~', b'!2147483647~', b'!2147483647-', b'"1;1;99999;99999~', b'"1;1;2147483647;2147483647~', b'!4095?!1?~', b'!4095?!2?~', b'!65536\x80']
     alpha = b'?@ABN^n~-$' * 3 + b'!#";0123456789'
     for _ in range(ctx.n(120, 600)):
         k = rng.randint(1, 24)
@@ -835,7 +845,7 @@ def correspondence(ctx):
                 t = (1, 1, a, c, b, d)
         if (inter, final) == ('', 't'): t = (8, rng.choice(vals), rng.choice(vals)) if rng.random() < 0.8 else t
         if (inter, final) == ('', '~'): t = (rng.choice([1, 2, 2, 3, 4, 5, 7]),)
-        if final == 'b' and t and t[0] > 3000: t = (rng.choice([0, 1, w, w * h, 3000]),) + t[1:]
+        # REP is clamped to w*h copies (after the fix): any count on the small screens
         # REP through margins scrolls once per wrapped row; the model walks the region cell by cell (twice with the threaded counter): keep the count small on big screens
         if final == 'b' and t and w * h > 240 and t[0] > 400: t = (rng.choice([w, 2 * w + 1, 400]),) + t[1:]
         meta.append((inter, final, w, h, pre, csi(inter, final, t), t))
@@ -848,7 +858,8 @@ def correspondence(ctx):
             old.append(i)
     exprs_old = ['run_seq_old %d %d %s %s' % (meta[i][2], meta[i][3], zl(meta[i][4]), zl(meta[i][5])) for i in old]
     # other models
-    hexs = [b'!5;4142;43', b'41', b'!0;41;', b'!2000;4142;', b'!3;!4;41;;', b'4', b'!12', b'!7;41', b'zz', b'!3;41;!4;42;43'] + \
+    hexs = [b'!5;4142;43', b'41', b'!0;41;', b'!2000;4142;', b'!3;!4;41;;', b'4', b'!12', b'!7;41', b'zz', b'!3;41;!4;42;43',
+            b'!65537;41;', b'!2147483647;41;', b'!65537;41', b'!32769;4142;', b'!2147483647;;41', b'41!65536;42;', b'!2147483647;41;42', b'!70000;;!70000;41;'] + \
            [b'!%d;%s;%s' % (rng.choice([0, 1, 7, 300, 2000]), b'4A' * rng.randint(0, 4), b'4B' * rng.randint(0, 3)) for _ in range(20)]
     glyphs = [(hh, nn) for hh in [0, 1, 8, 14, 16, 32, 255] for nn in [0, 1, 15, 16, 17, 4096, 8192]]
     extra_exprs = ['run_hex %s' % zl(s) for s in hexs] + ['run_glyphs %d %d' % g for g in glyphs]
@@ -908,10 +919,10 @@ def correspondence(ctx):
             dis.append({'case': c, 'impl': grown, 'model': al, 'what': 'rows+cells allocated exceed the model alloc counter'}); continue
         if grown > ta or al > ta:
             dis.append({'case': c, 'impl': grown, 'model': [al, ta], 'what': 'rows+cells allocated exceed the THREADED allocation counter (alloc_dominates)'}); continue
-        # instances of alloc_bound / ticks_bound (every set-up of this stage satisfies the C09 invariant; REP is the known class)
-        if me[1] != 'b':
+        # instances of alloc_bound / ticks_bound (every set-up of this stage satisfies the C09 invariant; alloc_bound does not cover REP)
+        if True:
             nb = len(me[5])
-            if ta > 8 * (nb + 1) * mscr or tk > 8 * (nb + 1) * mscr * mscr:
+            if (me[1] != 'b' and ta > 8 * (nb + 1) * mscr) or tk > 8 * (nb + 1) * mscr * mscr:
                 dis.append({'case': c, 'impl': [grown, v[0]], 'model': [ta, tk, mscr],
                             'what': 'the model counters exceed the proved bounds 8(n+1)scr / 8(n+1)scr^2: the theorem does not speak about this model state'}); continue
             bound_margin.append(ta / float(8 * (nb + 1) * mscr))
@@ -947,8 +958,8 @@ def correspondence(ctx):
         m = model[base2 + j]; r = impl_ext[j]
         if m is None or len(m) < 6: continue
         ext_n += 1
-        if m[1] > m[5] * (1 + m[4]) or m[2] > m[5] * (1 + m[4]):
-            dis.append({'case': hex_cases2[j], 'impl': None, 'model': m, 'what': 'hex macro counter / length exceed zlen s * (1 + hex_reps): hexmacro_bound does not hold for this model value'}); continue
+        if m[1] > m[5] + 65536 or m[2] > 65536:
+            dis.append({'case': hex_cases2[j], 'impl': None, 'model': m, 'what': 'hex macro counter / length exceed zlen s + MAX_MACRO_SIZE / MAX_MACRO_SIZE: hexmacro_bound does not hold for this model value'}); continue
         if m[0] == 1:
             if r is None or r[0] != 'ok':
                 dis.append({'case': hex_cases2[j], 'impl': r, 'model': m, 'what': 'invocation of an accepted hex macro did not return'}); continue
@@ -1002,8 +1013,8 @@ def correspondence(ctx):
         it, reps, dw, dh, rows_, longest, nbytes, cap = m[1:9]
         if v[3] != rows_ or v[4] != nbytes:
             dis.append({'case': c, 'impl': v[1:5], 'model': m, 'what': 'sixel image: height / bytes differ (code: ok width height bytes; model: .. rows longest bytes cap)'}); continue
-        if nbytes > cap or it > len(b_) + 1 + reps:
-            dis.append({'case': c, 'impl': v[1:5], 'model': m, 'what': 'the model counters exceed sixel_image_bound / sixel_ticks_bound'}); continue
+        if nbytes > cap or it > len(b_) + 1 + reps or nbytes > 4 * 4096 * 4096 or it > (len(b_) + 1) * 4097:
+            dis.append({'case': c, 'impl': v[1:5], 'model': m, 'what': 'the model counters exceed sixel_image_bound / sixel_ticks_bound (or their _abs forms)'}); continue
         if v[0] > 50 * per_tick * (it + nbytes) + 50000 and v[0] > 5_000_000:
             dis.append({'case': c, 'impl': v[0], 'model': m, 'what': 'sixel decode time beyond the 5 s limit while the model counts %d iterations' % it}); continue
         if nbytes > 0: nontriv.add(c)
@@ -1081,9 +1092,10 @@ LEVEL_TEXT = ('PARTIAL (by design: time and memory are runtime facts). Machine-c
               'at most 8(n+1) x measure^2 weighted inner iterations (ticks_bound, ticks_bound_sp/_dollar/_rqcra; the rectangle functions are clipped to the screen: rect_clip) and '
               'allocates at most 8(n+1) x measure rows + cells (alloc_bound, alloc_bound_sp/_dollar; threaded allocation counters that provably dominate the growth of the line table: '
               'alloc_dominates, alloc_counts_growth) - unconditionally for SU SD ICH DCH IL DL SL SR CVT CBT CUU CUD ECH ED EL SGR DECFRA DECERA DECSERA DECRQCRA window resize after the ten clamp fixes; '
-              'REP is the known class (rep_refuted / rep_linear). Conditional bounds with the known class as the explicit parameter: hex-macro repeat groups (hexmacro_bound: '
-              'work and expansion <= (1 + largest repeat count) x length), macro replay (macro_replay_bound: geometric in the nesting depth; recursion refuted), the sixel decoder '
-              '(sixel_ticks_bound: iterations <= payload + executed repeat counts; sixel_alloc_bound / sixel_image_bound: bytes <= 4 max(T, declared width) x max(6T+6, declared height)), '
+              'REP after its repair (at most width x height copies: rep_clamped; old loop: rep_before_fix_refuted) is inside cost_bound and ticks_bound, not yet inside alloc_bound. Hex-macro repeat groups after the size-limit fix (hexmacro_bound, unconditional: work <= length + MAX_MACRO_SIZE, stored macro <= MAX_MACRO_SIZE = 65536 characters; '
+              'before the fix: hexmacro_bound_before_fix, (1 + largest repeat count) x length), macro replay (macro_replay_bound: geometric in the nesting depth; recursion refuted), the sixel decoder '
+              '(sixel_ticks_bound: iterations <= payload + executed repeat counts; sixel_alloc_bound / sixel_image_bound: bytes <= 4 max(T, declared width) x max(6T+6, declared height); '
+              'after the size-limit fix also without any number of the payload: sixel_ticks_bound_abs <= length x 4097, sixel_alloc_bound_abs / sixel_image_bound_abs <= 4 x 4096 x 4096 = 64 MiB), '
               'the cell loops of the binary loaders BIN ADF XBin Tundra IDF (load_ticks_bound_*: cells stored <= bytes (x 65 for compressed XBin) + declared run lengths; rows x cells of the loaded layer). '
               'The counters are attached to the very model functions of C09/C01/C14/C05/C02 (tick_version_same_state, alloc_version_same_state, *_arms_only, the fst-equalities inside the bounds). '
               'The property\'s own limits (5 s, 1 GiB, stack) are applied to the complete control-function table on the real code by stage S.')
@@ -1092,6 +1104,6 @@ LEVEL_NOTE = ('Theorems speak about iteration/allocation counts of the model; th
               'and stage S (absolute limits on the real code: single control functions, the same in prepared states, and probe suffixes on the state they leave). '
               'Extension: stage C also compares the threaded allocation counter and instances of alloc_bound / ticks_bound on every CSI case, the rectangle functions, '
               'characters printed by hex macros and nested macros (vs hexmacro_bound / macro_replay_bound), rows / bytes of decoded sixel images, and width / height / rows / cells of '
-              'buffers loaded from generated BIN ADF XBin Tundra IDF files. Known classes: REP, hex-macro repeat, macro recursion, sixel raster/repeat, declared sizes of loaders.')
+              'buffers loaded from generated BIN ADF XBin Tundra IDF files. Known classes: declared sizes of loaders, cursor row of the text loaders.')
 TECHNIQUE = ('Coq proof over tick-annotated model functions (arithmetic bounds from the C09 invariant) + exhaustive control-function table under process limits, '
              'on a fresh screen and on prepared states, with probe suffixes and terminal-state comparison against the model')
